@@ -20,3 +20,13 @@ package base
 //@   exits any
 //@   loop 1: invariant 2 <= base && base <= 36 && -1 <= rangeindex && rangeindex < len(digits) && forall(j, 0, rangeindex+1, digitVal(digits[j]) < base)
 //@   assert_before_call Push1 inscope: nargs != 1 && typeis(arg2.iface, int64) ==> forall(j, 0, len(digits), digitVal(digits[j]) < base)
+
+// C04: select never slices its extra arguments out of range, whatever index it
+// is given (negative indices count from the end; out of range is an error).
+// The number of slots is the arity select is registered with (checked against
+// the registration by the arity obligations).
+//@ func selectF
+//@   prop C04
+//@   arith int
+//@   requires t != nil && t.Runtime != nil && goFuncPre(t, c) && len(c.args) == 1
+//@   modifies everything()
